@@ -117,9 +117,15 @@ func sliceFields(fc *FuncCtx, e ast.Expr, rcObj types.Object) map[string]bool {
 				}
 			case *ast.CallExpr:
 				// builder calls: o.M(args) or f(&o, args)
-				if sel, ok := ast.Unparen(st.Fun).(*ast.SelectorExpr); ok && objOf(info, sel.X) == o {
-					for _, a := range st.Args {
-						scan(a)
+				if sel, ok := ast.Unparen(st.Fun).(*ast.SelectorExpr); ok {
+					recv := ast.Unparen(sel.X)
+					if ue, isU := recv.(*ast.UnaryExpr); isU && ue.Op == token.AND {
+						recv = ast.Unparen(ue.X) // (&o).M(args): the receiver of an expanded helper
+					}
+					if objOf(info, recv) == o {
+						for _, a := range st.Args {
+							scan(a)
+						}
 					}
 				}
 			}
@@ -135,7 +141,7 @@ func c09R1R2(p *Prog, r *Report) {
 	r.Rule(r1, "every condition field of RouteConfig is consulted by RouteConfig.Route (a documented condition that is parsed but never read is silently ignored)")
 	r.Rule(r2, "each AddCriterion(criterion, invert) in RouteConfig.Route pairs a criterion built only from condition fields of one direction (From*/To*) and of the kind the invert flag's documentation names with that kind's own Invert flag; From* fields build Source* criteria and To* fields Dest* criteria; address-kind criteria are added to one OR group per direction that is appended to the route exactly once, after its members were added")
 	fields, docs := routeConfigFields(p)
-	fc := p.Func("router", "RouteConfig", "Route")
+	fc := p.Inlined(p.Func("router", "RouteConfig", "Route"))
 	info := fc.Info()
 	rcObj := fc.RecvObj()
 	read := map[string]bool{}
